@@ -51,16 +51,6 @@ Proof.
 Qed.
 
 (* ------------------------------------------------------------------ order_rows against the reference on the REFERENCE input *)
-Lemma sorted_transfer {A B} (R : A -> B -> Prop) (le : A -> A -> bool) (le' : B -> B -> bool) l l' :
-  (forall a a' b b', R a a' -> R b b' -> le a b = le' a' b') -> Forall2 R l l' ->
-  StronglySorted (fun a b => le a b = true) l -> StronglySorted (fun a b => le' a b = true) l'.
-Proof.
-  intros H F. induction F as [|a a' l l' Ra F IH]; intros S; [constructor|]. inversion S as [|? ? St Fa]; subst.
-  constructor; [apply IH, St|]. clear IH St S. induction F as [|b b' l l' Rb F IH]; constructor.
-  - inversion Fa; subst. rewrite <- (H _ _ _ _ Ra Rb). assumption.
-  - apply IH. inversion Fa; assumption.
-Qed.
-
 Lemma px_order_refines2 srt cs rev lim u u' x :
   sorter_ok srt -> refines u u' -> width_ok u' ->
   (lim <> None -> total_on fl_pandas (cols u') (map (fun c => (c, mem c rev)) cs) (rows u')) ->
